@@ -13,9 +13,9 @@ H = lambda s: (s if isinstance(s, bytes) else s.encode()).hex()
 DEFAULT = open(os.path.join(vlib.REPO, "internal/hsrv/script.tmpl"), "rb").read()
 TMPLS = {"default": DEFAULT, "unparsable": b"{{ if }", "execfails": b"#!/bin/sh\n{{.PubkeyFP}} {{.Nope}}\n", "literal": b"echo literal-template\n",
          "literal2": b"echo LITERAL-TEMPLATE\n", "unparsable2": b"{{ if }" + b"x" * 14 + b"\n"}
-TCOQ = {"none": "TDefault", "default": "TDefault", "unparsable": "TUnparsable", "unparsable2": "TUnparsable", "execfails": "TExecFails", "missing": "TMissing"}
+TCOQ = {"none": "TDefault", "default": "TDefault", "unparsable": "TUnparsable", "unparsable2": "TUnparsable", "unparsable_big": "TUnparsable", "execfails": "TExecFails", "missing": "TMissing"}
 HOSTS = ["h.example", "h.example:8443", "bücher.example", "[::1]:8443", "", "UPPER.Example", "xn--bcher-kva.example", "a" * 70 + ".example", "h․example"]
-C2S = ["", "cb.example:4444", "10.0.0.1", "%s%d", "a b", "[::1]:1"]
+C2S = ["", "cb.example:4444", "10.0.0.1", "%s%d", "a b", "[::1]:1", " lead.example", "trail.example ", "\ttab.example\n"]
 SNIS = ["", "sni.example", "::1"]
 
 
@@ -88,6 +88,22 @@ def make_cases(rng, tier):
             for _ in range(2):
                 a, m = mk_req(rng); m["tmpl"] = st; acts.append(a); meta.append(m)
         cases.append({"cfg": {"tmpl": H(DEFAULT)}, "acts": acts, "_meta": meta})
+    # a template larger than 64 KiB (embedded shell functions): served whole; an error beyond byte 65536 is still an error
+    big = b"echo big-template\n" + b"# padding padding padding padding padding padding padding padding\n" * 1100 + b"echo end-of-big-template\n"
+    TMPLS["literal_big"] = big
+    TMPLS["unparsable_big"] = big + b"{{ if }\n"
+    acts, meta = [], []
+    for st in ("literal_big", "unparsable_big", "literal_big"):
+        acts.append({"a": "tmpl", "c": H(TMPLS[st])}); meta.append({"edit": st})
+        a, m = mk_req(rng); m["tmpl"] = st; acts.append(a); meta.append(m)
+    cases.append({"cfg": {"tmpl": H(DEFAULT)}, "acts": acts, "_meta": meta})
+    # a template path whose file does not exist when the server starts: an error until it appears, then it is used, edited, removed, re-created
+    acts, meta = [], []
+    a, m = mk_req(rng); m["tmpl"] = "missing"; acts.append(a); meta.append(m)
+    for st in ("literal", "literal2", "missing", "default", "unparsable", "literal"):
+        acts.append({"a": "tmpl", "c": H(TMPLS[st])} if st != "missing" else {"a": "tmpl"}); meta.append({"edit": st})
+        a, m = mk_req(rng); m["tmpl"] = st; acts.append(a); meta.append(m)
+    cases.append({"cfg": {"tmpl_absent": True}, "acts": acts, "_meta": meta})
     # listening on 443: the SNI is used without a port
     acts, meta = [], []
     for sni in ("sni.example", "other.example"):
